@@ -29,7 +29,7 @@ class Contract:
 
     def __init__(self, name, functions, run, setup=None, assumptions=(),
                  replay=None, tier='P', bound=None, max_paths=4000,
-                 doc=''):
+                 doc='', also=None):
         self.name = name
         self.functions = list(functions)
         self.run = run
@@ -40,6 +40,10 @@ class Contract:
         self.bound = bound
         self.max_paths = max_paths
         self.doc = doc
+        # obligations labelled with a property that are obligations of other
+        # properties too, e.g. {'C07': ('C01',)}: the renderer contract is
+        # what C01's "the output file holds the accepted list" rests on
+        self.also = dict(also or {})
 
 
 class NativeCheck:
@@ -330,15 +334,20 @@ def run_property(prop, modname, tier, level, title='', record_baseline=False):  
             continue
         for u in pk['unsupported']:
             undecided.append((cname, 'unsupported: ' + u))
-        if pk['paths'] == 0:
-            crashes.append((cname, 'no feasible path (vacuous contract)'))
-        if pk['canaries_refuted'] == 0:
-            crashes.append((cname, 'canary not refuted: precondition is '
-                            'contradictory or no path completed'))
-        for cv, n in pk.get('covers', {}).items():
-            if n == 0:
-                crashes.append((cname, f'cover {cv} never reached: the '
-                                'contract is vacuous'))
+        # vacuity is a defect of the contract -- unless the exploration was
+        # cut short because the contract does not fit the code (already
+        # reported as undecided above)
+        if not pk['unsupported']:
+            if pk['paths'] == 0:
+                crashes.append((cname, 'no feasible path (vacuous '
+                                'contract)'))
+            if pk['canaries_refuted'] == 0:
+                crashes.append((cname, 'canary not refuted: precondition is '
+                                'contradictory or no path completed'))
+            for cv, n in pk.get('covers', {}).items():
+                if n == 0:
+                    crashes.append((cname, f'cover {cv} never reached: the '
+                                    'contract is vacuous'))
         if not pk['results'] and not pk['unsupported']:
             crashes.append((cname, 'zero obligations generated'))
         solver_s += pk['solver_seconds']
@@ -444,6 +453,9 @@ def run_property(prop, modname, tier, level, title='', record_baseline=False):  
             # counterexample leads to a failing input of the real code
             # (decided by the replay against this property's oracle)
             aux_names.add(name)
+        elif m_ and m_.group(1) != prop and c_ is not None and \
+                prop in c_.also.get(m_.group(1), ()):
+            pass  # an obligation of this property as well
         elif (m_ and m_.group(1) != prop) or (not m_):
             # an obligation of another property, or an auxiliary invariant:
             # this property's proof is incomplete, but that is not a
